@@ -308,6 +308,7 @@ func checkC08(r *core.Run) {
 		}
 		c08Tables(r, p, v.name)
 		c08Limbs(r, p, v.name)
+		c08NormalizeThreshold(r, p, v.name)
 		if v.arch == "" {
 			c08Alias(r, p)
 			c08SpecialCases(r, p, "R-C08-alias")
@@ -908,4 +909,71 @@ func c08WordsNotShared(r *core.Run, p *core.Program, rule string) {
 		}
 	}
 	r.Check(n >= 1, rule, "words-not-shared/sites", "-", fmt.Sprintf("%d SetBits calls", n), "no SetBits call found")
+}
+
+// c08NormalizeThreshold: Normalize subtracts p once more exactly when the folded value is >= p.  With the
+// upper limbs all ones that is decided by comparing the low part (52 bits: limb 0, or limbs 0 and 1 of the
+// 26-bit layout) with the low 52 bits of p, 0xFFFFEFFFFFC2F.  The comparison must separate "< p0" from
+// ">= p0": evaluated at p0-1, p0 and p0+1 it is true exactly for the values >= p0 (reduce when true) or
+// exactly for the values < p0 (leave alone when true).  An off-by-one here leaves the value p itself (every
+// multiple of p) unreduced: zero is then not recognised as zero.
+func c08NormalizeThreshold(r *core.Run, p *core.Program, cfg string) {
+	const rule = "R-C08-limbs"
+	key := "normalize-threshold/" + cfg
+	fn := p.Func("lib/secp256k1.(*Field).Normalize")
+	if fn == nil {
+		r.Fail(rule, key, "-", "Normalize not found")
+		return
+	}
+	p0 := new(big.Int)
+	p0.SetString("FFFFEFFFFFC2F", 16)
+	near := func(c *big.Int) bool {
+		d := new(big.Int).Sub(c, p0)
+		return d.CmpAbs(big.NewInt(1)) <= 0
+	}
+	n := 0
+	bad := ""
+	an.Instrs(fn, func(i ssa.Instruction) {
+		bo, ok := i.(*ssa.BinOp)
+		if !ok {
+			return
+		}
+		switch bo.Op {
+		case token.LSS, token.LEQ, token.GTR, token.GEQ, token.EQL, token.NEQ:
+		default:
+			return
+		}
+		c, isC := an.ConstOf(bo.Y)
+		if !isC || !near(c) {
+			return
+		}
+		n++
+		var trueAt []bool
+		for d := int64(-1); d <= 1; d++ {
+			v := new(big.Int).Add(p0, big.NewInt(d))
+			cmp := v.Cmp(c)
+			t := false
+			switch bo.Op {
+			case token.LSS:
+				t = cmp < 0
+			case token.LEQ:
+				t = cmp <= 0
+			case token.GTR:
+				t = cmp > 0
+			case token.GEQ:
+				t = cmp >= 0
+			case token.EQL:
+				t = cmp == 0
+			case token.NEQ:
+				t = cmp != 0
+			}
+			trueAt = append(trueAt, t)
+		}
+		geq := !trueAt[0] && trueAt[1] && trueAt[2]
+		lss := trueAt[0] && !trueAt[1] && !trueAt[2]
+		if !geq && !lss {
+			bad = fmt.Sprintf("the low part is compared with '%s 0x%X' at %s: that does not separate the values below the low 52 bits of p from those at or above (p itself is decided the wrong way)", bo.Op, c, p.Pos(bo.Pos()))
+		}
+	})
+	r.Check(n >= 1 && bad == "", rule, key, p.Pos(fn.Pos()), "the final reduction is decided by 'low part >= low 52 bits of p'", bad+map[bool]string{true: "", false: " (no comparison with the low bits of p found)"}[n >= 1])
 }
